@@ -176,6 +176,24 @@ def oracle(ctx):
             cmp("branching-integrand:da", gb, torch.tensor(want_g, dtype=DT), 1e-12)
         except Exception as e:
             ctx.fail("oracle", "quadgrad:branching-integrand:exception", {"interval": [lo_b, hi_b], "n": nb}, repr(e)[:300], want_g)
+    # ... and one tensor that is both an explicit parameter and held by the integrand's module (same finding F35)
+    try:
+        class HoldA(torch.nn.Module):
+            def __init__(self):
+                super().__init__()
+                self.a = torch.nn.Parameter(torch.tensor(1.3, dtype=DT))
+
+            def forward(self, x, p):
+                return p * x + self.a * x * x
+        hm = HoldA()
+        v = quad(hm.forward, 0.0, 1.0, params=(hm.a,), n=10)
+        g, = torch.autograd.grad(v, hm.a)
+        ctx.count(("oracle", "aliased-explicit-and-object-param"))
+        if not torch.allclose(g, torch.tensor(5.0 / 6.0, dtype=DT), rtol=1e-9):
+            ctx.fail("oracle", "quadgrad:aliased-explicit-and-object-param", {"call": "quad(m.forward, 0, 1, params=(m.a,)) with forward(x, p) = p*x + self.a*x*x"},
+                     float(g), 5.0 / 6.0)
+    except Exception as e:
+        ctx.fail("oracle", "quadgrad:aliased-explicit-and-object-param:exception", {}, repr(e)[:300], "5/6")
     # infinite limit
     try:
         v = quad(lambda x, a: torch.exp(-a * x * x), 0.0, math.inf, params=(a,), n=150)
